@@ -157,6 +157,10 @@ pub struct DExtra<'a> {
     /// after this many deflate calls: deflateReset and start over with the same input (the header set with
     /// deflateSetHeader stays installed, as in zlib); the trace describes the stream written after the reset (0 = never)
     pub reset_after_call: usize,
+    /// value written to total_in / total_out right after init (as an application restarting its own accounting may):
+    /// a stream "that has already moved almost 4 GiB" without moving them. Ignored for gzip (zlib writes total_in into
+    /// the trailer) and when the history contains a reset. The trace reports totals relative to this base.
+    pub totals_base: u64,
 }
 
 pub struct GzHold {
@@ -230,6 +234,11 @@ pub fn run_deflate<Zx: Z>(cfg: &DCfg, input: &[u8], sched: &DSched, env: &Env, e
                 return Err(format!("{}: deflateSetHeader returned {}", Zx::NAME, rc_name(r)));
             }
             _gzhold = Some(h);
+        }
+        let base = if cfg.wrap != crate::inputs::Wrap::Gzip && ex.reset_after_call == 0 { ex.totals_base } else { 0 };
+        if base != 0 {
+            s.z.total_in = base as _;
+            s.z.total_out = base as _;
         }
         let mut dict_in: u64 = 0;
         if let Some(d) = ex.dict {
@@ -488,8 +497,8 @@ pub fn run_deflate<Zx: Z>(cfg: &DCfg, input: &[u8], sched: &DSched, env: &Env, e
             }
         }
         t.ended = true;
-        t.total_in = s.z.total_in as u64;
-        t.total_out = s.z.total_out as u64;
+        t.total_in = (s.z.total_in as u64).wrapping_sub(base);
+        t.total_out = (s.z.total_out as u64).wrapping_sub(base);
         t.adler = s.z.adler as u64;
         t.data_type = s.z.data_type;
         let dict_win = dict_in.min(cfg.w_size() as u64);
@@ -601,6 +610,8 @@ pub struct IExtra<'a> {
     pub expect_out: usize,
     /// do not end the stream; caller continues (not used yet)
     pub max_out: usize,
+    /// value written to total_in / total_out right after init (see DExtra::totals_base); the trace is relative to it
+    pub totals_base: u64,
 }
 
 pub const MODE_NAMES: [&str; 32] = [
@@ -630,6 +641,10 @@ pub fn run_inflate<Zx: Z>(wb: i32, input: &[u8], sched: &ISched, env: &Env, ex: 
                     return Err(format!("{}: inflateSetDictionary on a fresh raw stream returned {}", Zx::NAME, rc_name(r)));
                 }
             }
+        }
+        if ex.totals_base != 0 {
+            s.z.total_in = ex.totals_base as _;
+            s.z.total_out = ex.totals_base as _;
         }
         let mut t = ITrace { out: vec![], calls: vec![], fin: Fin::NeedMore, total_in: 0, total_out: 0, consumed: 0, adler: 0, data_type_last: 0, last_ret: 0 };
         let mut pos = 0usize;
@@ -770,8 +785,8 @@ pub fn run_inflate<Zx: Z>(wb: i32, input: &[u8], sched: &ISched, env: &Env, ex: 
                 return Err(format!("{}: non-termination: {ncalls} inflate calls without a terminal status (input {} bytes, {} out)", Zx::NAME, input.len(), t.out.len()));
             }
         }
-        t.total_in = s.z.total_in as u64;
-        t.total_out = s.z.total_out as u64;
+        t.total_in = (s.z.total_in as u64).wrapping_sub(ex.totals_base);
+        t.total_out = (s.z.total_out as u64).wrapping_sub(ex.totals_base);
         t.consumed = pos;
         t.adler = s.z.adler as u64;
         if t.total_in != pos as u64 || t.total_out != t.out.len() as u64 {
